@@ -99,7 +99,8 @@ def check(ctx):
     # ---- R-C11.2 ------------------------------------------------------------------
     allm = set(cur) | set(WC.load_ref())
     k = WCm.run_group(ctx, "R-C11.2", allm, lambda label, field: WCm.is_coord_field(label, field) and not label.startswith("call:_parse_error"),
-                      "coordinate provenance deviates from the reviewed reference", returns=False, appends=False)
+                      "coordinate provenance deviates from the reviewed reference", returns=False, appends=True,
+                      append_filter=lambda tgt, op: op.startswith("store") and tgt.endswith(".coord"))     # ... and so does every coordinate stored into an existing node
     ctx.require_instances("R-C11.2", 90)
     # ---- R-C11.4 ----------------------------------------------------------------------
     mk = lx.method("CLexer", "_make_token")
@@ -132,6 +133,8 @@ def check(ctx):
                 ctx.violation("R-C11.4", f"restamp:{mod.name}:{n.attr}", f"a token's .{n.attr} is re-assigned after lexing", file=mod.rel, function=getattr(S.enclosing_function(n), "name", ""), line=n.lineno)
     from . import c09
     c09.token_spelling_sites(ctx, "R-C11.4")      # the offset a token is stamped with is where its spelling starts
+    from . import share
+    share.borrow(ctx, "C09", ("R-C09.4",), "R-C11.4")    # ... and the line start the column is measured from is the offset after the last newline
     tc = px.method("CParser", "_tok_coord")
     tokp = tc.args.args[1].arg
     coords = [c for c in ast.walk(tc) if isinstance(c, ast.Call) and S.unparse(c.func) in ("Coord", "self._coord")]
